@@ -33,11 +33,22 @@ def ops_for(L):
 
 
 class _Clock:
+    """Virtual clock.  Time also passes *during* a request (a slow client): every
+    reading after the first one within a request is one second later."""
+
     def __init__(self):
         self.now = T0
+        self.reads = 0
 
     def time(self):
-        return float(self.now)
+        v = float(self.now + self.reads)
+        self.reads += 1
+        return v
+
+    def settle(self):
+        """End of a request: the time that passed during it has passed."""
+        self.now += max(0, self.reads - 1)
+        self.reads = 0
 
     def __getattr__(self, name):
         import time
@@ -59,7 +70,8 @@ def _install_clock():
 
 
 def _initial_spec():
-    return {"d": {"a.txt": b"A\n", "b.txt": b"BB\n", "sub": {"x.txt": b"x\n"}, "a.txt.abstract": b"about a\n"}}
+    return {"d": {"a.txt": b"A\n", "b.txt": b"BB\n", "sub": {"x.txt": b"x\n"}, "a.txt.abstract": b"about a\n", "empty.txt": b"",
+                  ".links": b"Name=Port Zero\nType=1\nPath=/z\nHost=zero.example\nPort=0\nNumb=0\n"}}
 
 
 class _Sys:
@@ -84,7 +96,9 @@ class _Sys:
     def _twin_listing(self, p):
         data, tls = rig.request(p, "/d")
         rig.reset_lazies()
+        CLOCK.reads = 0
         r = rig.serve(self.twin, data, tls)
+        CLOCK.reads = 0
         if r.internal_error:
             raise core.HarnessError("twin failed: %s" % r.describe_error())
         return _norm(r.out)
@@ -141,7 +155,9 @@ class _Sys:
         before = self._cache_sig()
         data, tls = rig.request(proto, "/d")
         rig.reset_lazies()
+        CLOCK.reads = 0
         r = self.w.serve(data, tls)
+        CLOCK.settle()
         after = self._cache_sig()
         bad = None
         if r.internal_error:
